@@ -94,11 +94,21 @@ pub enum Ending {
   Stuck(String),
 }
 
-#[derive(Debug, Clone, PartialEq, Eq)]
+#[derive(Debug, Clone)]
 pub struct Outcome {
   pub lines: Vec<String>,
   pub ending: Ending,
+  /// some `+`, `-` or `*` executed during the run overflowed i32 (the source language leaves the
+  /// result of such a run open). Not part of the equality of outcomes.
+  pub overflowed: bool,
 }
+
+impl PartialEq for Outcome {
+  fn eq(&self, other: &Self) -> bool {
+    self.lines == other.lines && self.ending == other.ending
+  }
+}
+impl Eq for Outcome {}
 
 pub struct Config {
   pub fuel: u64,
@@ -111,8 +121,8 @@ pub const TRAP_DIV_BY_ZERO: &str = "divide by zero";
 /// `INT_MIN / -1` (V8: "divide result unrepresentable").
 pub const TRAP_INT_OVERFLOW: &str = "integer overflow";
 /// libsam.wat: `(unreachable)`; the part after the colon is the message of the TS prolog.
-pub const TRAP_VEC_POP_EMPTY: &str = "unreachable: pop from empty Vec";
-pub const TRAP_VEC_OUT_OF_BOUNDS: &str = "unreachable: Vec index out of bounds";
+pub const TRAP_VEC_POP_EMPTY: &str = "pop from empty Vec";
+pub const TRAP_VEC_OUT_OF_BOUNDS: &str = "Vec index out of bounds";
 /// `ref.cast (ref i31)` in `$__$unwrapI31` failing (only possible for ill-typed MIR).
 pub const TRAP_ILLEGAL_CAST: &str = "illegal cast";
 /// `array.get_s` past the end: only `Str.toInt` of the empty string (see `Builtin::StrToInt`).
@@ -229,7 +239,7 @@ fn try_on_big_stack<R: Send>(
 /// caller down.
 fn internal_error(payload: Box<dyn std::any::Any + Send>) -> (Outcome, Option<i32>) {
   let msg = format!("INTERNAL ERROR: mirsem panicked: {}", panic_message(payload));
-  (Outcome { lines: Vec::new(), ending: Ending::Stuck(msg) }, None)
+  (Outcome { lines: Vec::new(), ending: Ending::Stuck(msg), overflowed: false }, None)
 }
 
 fn panic_message(payload: Box<dyn std::any::Any + Send>) -> String {
@@ -629,6 +639,17 @@ impl FnCompiler<'_, '_> {
       mir::Statement::Not { name, operand } => {
         Stmt::Not { opnd: self.opnd(operand), dst: self.slot(*name) }
       }
+      // `x + 0` is the MIR's typed move (inlining binds a callee's result with it, the
+      // tail-recursion rewrite initialises the break collector with it) for values of ANY type;
+      // constant propagation later folds it away.
+      mir::Statement::Binary(mir::Binary {
+        name,
+        operator: BinaryOperator::PLUS,
+        e1,
+        e2: mir::Expression::Int32Literal(0),
+      }) if !matches!(e1, mir::Expression::Int32Literal(_)) => {
+        Stmt::Move { src: self.opnd(e1), dst: self.slot(*name) }
+      }
       mir::Statement::Binary(mir::Binary { name, operator, e1, e2 }) => {
         let str_cmp = is_static_str(e1) || is_static_str(e2);
         let op = match operator {
@@ -892,12 +913,14 @@ impl<'a> Program<'a> {
       return Outcome {
         lines: Vec::new(),
         ending: Ending::Stuck(format!("no main function number {main_index}")),
+        overflowed: false,
       };
     };
     let Some(f) = entry else {
       return Outcome {
         lines: Vec::new(),
         ending: Ending::Stuck(format!("main function number {main_index} is not defined")),
+        overflowed: false,
       };
     };
     // main takes no parameter after constant-parameter elimination; if it still has its `_this`
@@ -918,6 +941,7 @@ impl<'a> Program<'a> {
         Outcome {
           lines: Vec::new(),
           ending: Ending::Stuck(format!("no function number {function_index}")),
+          overflowed: false,
         },
         None,
       );
@@ -944,15 +968,17 @@ impl<'a> Program<'a> {
       max_depth: config.max_call_depth,
       stack_floor: here.saturating_sub(stack_budget_bytes),
       break_val: V::Undef,
+      overflowed: false,
     };
     let result = interp.call_with_values(function_index, args);
     let lines = std::mem::take(&mut interp.lines);
+    let overflowed = interp.overflowed;
     match result {
       Ok(v) => {
         let int = if let V::Int(i) = v { Some(i) } else { None };
-        (Outcome { lines, ending: Ending::Return }, int)
+        (Outcome { lines, ending: Ending::Return, overflowed }, int)
       }
-      Err(e) => (Outcome { lines, ending: *e }, None),
+      Err(e) => (Outcome { lines, ending: *e, overflowed }, None),
     }
   }
 
@@ -1108,6 +1134,7 @@ struct Interp<'p, 'a> {
   /// lowest native stack address MIR calls may reach
   stack_floor: usize,
   break_val: V,
+  overflowed: bool,
 }
 
 #[inline(always)]
@@ -1473,7 +1500,12 @@ impl<'p, 'a> Interp<'p, 'a> {
         let x = self.eval_i32(f, a, base, "arithmetic operand")?;
         let y = self.eval_i32(f, b, base, "arithmetic operand")?;
         Ok(match op {
-          BinOp::Mul => x.wrapping_mul(y),
+          BinOp::Mul => {
+            if x.checked_mul(y).is_none() {
+              self.overflowed = true;
+            }
+            x.wrapping_mul(y)
+          }
           BinOp::Div => {
             if y == 0 {
               return trap(TRAP_DIV_BY_ZERO);
@@ -1489,8 +1521,18 @@ impl<'p, 'a> Interp<'p, 'a> {
             }
             x.wrapping_rem(y)
           }
-          BinOp::Plus => x.wrapping_add(y),
-          BinOp::Minus => x.wrapping_sub(y),
+          BinOp::Plus => {
+            if x.checked_add(y).is_none() {
+              self.overflowed = true;
+            }
+            x.wrapping_add(y)
+          }
+          BinOp::Minus => {
+            if x.checked_sub(y).is_none() {
+              self.overflowed = true;
+            }
+            x.wrapping_sub(y)
+          }
           BinOp::And => x & y,
           BinOp::Or => x | y,
           BinOp::Shl => x.wrapping_shl(y as u32),
@@ -1692,7 +1734,7 @@ impl<'p, 'a> Interp<'p, 'a> {
         let popped = v.data.borrow_mut().pop();
         match popped {
           Some(e) => Ok(e),
-          None => trap(TRAP_VEC_POP_EMPTY),
+          None => Err(Box::new(Ending::Panic(TRAP_VEC_POP_EMPTY.to_string()))),
         }
       }
       Builtin::VecGet => {
@@ -1702,7 +1744,7 @@ impl<'p, 'a> Interp<'p, 'a> {
         let element = v.data.borrow().get(i as u32 as usize).cloned();
         match element {
           Some(e) => Ok(e),
-          None => trap(TRAP_VEC_OUT_OF_BOUNDS),
+          None => Err(Box::new(Ending::Panic(TRAP_VEC_OUT_OF_BOUNDS.to_string()))),
         }
       }
       Builtin::VecSet => {
@@ -1717,7 +1759,7 @@ impl<'p, 'a> Interp<'p, 'a> {
             drop(old);
             Ok(V::Int(0))
           }
-          None => trap(TRAP_VEC_OUT_OF_BOUNDS),
+          None => Err(Box::new(Ending::Panic(TRAP_VEC_OUT_OF_BOUNDS.to_string()))),
         }
       }
       Builtin::VecEq => {
